@@ -10,7 +10,8 @@ from .common import CheckError, log, scratch
 
 
 class IsaCfg:
-    def __init__(self, name, module, cpus, unit_bytes=1, big=False, header=(), covers="", addr_step=1):
+    def __init__(self, name, module, cpus, unit_bytes=1, big=False, header=(), covers="", addr_step=1, quick=None,
+                 thorough=None):
         self.name = name          # family name used in evidence
         self.module = module      # TLA+ generator module
         self.cpus = cpus          # list of (TLA+ Cpu constant, asl CPU name)
@@ -18,7 +19,17 @@ class IsaCfg:
         self.big = big            # byte order of a multi-byte unit in emit events / code file
         self.header = list(header)
         self.covers = covers
+        self.quick = quick            # TLA+ Cpu constants run in the quick tier (default: all)
+        self.thorough = thorough      # ... in the thorough tier (default: all)
         self.addr_step = addr_step    # address units per encoding unit (2 for 16-bit words in a byte-addressed segment)
+
+
+def _cpus_for(self, tier):
+    sel = self.quick if tier == "quick" else self.thorough
+    return [c for c in self.cpus if sel is None or c[0] in sel]
+
+
+IsaCfg.cpus_for = _cpus_for
 
 
 def gen_cases(cfg, cpu, k, salt, extra_consts="", timeout=600, workers=1):
